@@ -1784,3 +1784,353 @@ Proof.
   unfold check_C04.
   apply (i_chk _ _ _ (inv4_run (map c_link cfgs) ls _ (inv_init cfgs msgs) (inv4_init cfgs msgs))).
 Qed.
+
+Theorem C04_oracle_sound_dops cfgs msgs rounds fuel order ops :
+  check_C04 (map c_link cfgs) (trace_of (run_dops rounds fuel order (init cfgs msgs) ops)) = true.
+Proof. rewrite run_dops_labels. apply C04_oracle_sound_proof. Qed.
+
+(* ------------------------------------------------------------------ *)
+(* what the accepted traces look like (consequences of the oracle)      *)
+
+Lemma check_go_split links seen t1 e t2 :
+  check_C04_go links seen (t1 ++ e :: t2) = true ->
+  match e with TEnter s (Sup x) => judge_sup links (seen ++ t1) s x = true | _ => True end.
+Proof.
+  revert seen. induction t1 as [|y r IH]; intros seen; simpl.
+  - rewrite app_nil_r. intros H. apply andb_true_iff in H as [H _].
+    destruct e as [s c| | | | | | | | | | | |]; auto. destruct c; auto.
+  - intros H. apply andb_true_iff in H as [_ H]. specialize (IH _ H). rewrite <- app_assoc in IH. exact IH.
+Qed.
+
+Lemma onat_eqb_true a b : onat_eqb a b = true -> a = b.
+Proof.
+  destruct a, b; simpl; intros H; try discriminate; auto. apply Nat.eqb_eq in H. congruence.
+Qed.
+
+Section Consequences.
+  Variables (cfgs : list cfg) (msgs : list (nat * script)) (ls : list label).
+  Let t := trace_of (run (init cfgs msgs) ls).
+
+  Lemma judged t1 s x t2 : t = t1 ++ TEnter s (Sup x) :: t2 -> judge_sup (map c_link cfgs) t1 s x = true.
+  Proof.
+    intros E. pose proof (C04_oracle_sound_proof cfgs msgs ls) as H. fold t in H. rewrite E in H.
+    apply (check_go_split _ [] t1 (TEnter s (Sup x)) t2 H).
+  Qed.
+
+  (* an event is only ever handled by the actor its subject was spawn-linked to *)
+  Theorem no_stranger_events t1 s x t2 :
+    t = t1 ++ TEnter s (Sup x) :: t2 -> nth (about x) (map c_link cfgs) None = Some s.
+  Proof.
+    intros E. pose proof (judged _ _ _ _ E) as J. unfold judge_sup in J.
+    apply andb_true_iff in J as [J _]. apply onat_eqb_true. exact J.
+  Qed.
+
+  (* when a terminal event about c starts to be handled, s has handled no terminal event about c before *)
+  Theorem terminal_first t1 s x t2 :
+    t = t1 ++ TEnter s (Sup x) :: t2 -> is_terminal x = true ->
+    count_sup s (fun y => is_terminal y && Nat.eqb (about y) (about x)) t1 = 0.
+  Proof.
+    intros E Ht. pose proof (judged _ _ _ _ E) as J. unfold judge_sup in J.
+    apply andb_true_iff in J as [_ J]. destruct x; try discriminate;
+      apply andb_true_iff in J as [J _]; apply Nat.eqb_eq in J; exact J.
+  Qed.
+
+  (* ActorStarted: post_start had returned Ok, and s had handled nothing about that child before
+     (no earlier Started, no earlier terminal event) *)
+  Theorem started_first t1 s c t2 :
+    t = t1 ++ TEnter s (Sup (SStarted c)) :: t2 ->
+    post_start_ok c t1 = true /\ count_sup s (fun y => Nat.eqb (about y) c) t1 = 0.
+  Proof.
+    intros E. pose proof (judged _ _ _ _ E) as J. unfold judge_sup in J.
+    apply andb_true_iff in J as [_ J]. apply andb_true_iff in J as [J1 J2].
+    apply Nat.eqb_eq in J2. auto.
+  Qed.
+
+  Theorem classification_failed t1 s c txt t2 :
+    t = t1 ++ TEnter s (Sup (SFailed c txt)) :: t2 -> ending_of c t1 EndNone = EndFailed txt.
+  Proof.
+    intros E. pose proof (judged _ _ _ _ E) as J. unfold judge_sup in J.
+    apply andb_true_iff in J as [_ J]. apply andb_true_iff in J as [_ J]. simpl in J.
+    destruct (ending_of c t1 EndNone); try discriminate. apply Nat.eqb_eq in J. congruence.
+  Qed.
+
+  Theorem classification_with_state t1 s c r t2 :
+    t = t1 ++ TEnter s (Sup (STerminated c true r)) :: t2 ->
+    ending_of c t1 EndNone = EndGraceful /\
+    (has_ev (ev_stop c r) t1 = true \/ (r = Some R_DRAINED /\ has_ev (ev_drain c) t1 = true)).
+  Proof.
+    intros E. pose proof (judged _ _ _ _ E) as J. unfold judge_sup in J.
+    apply andb_true_iff in J as [_ J]. apply andb_true_iff in J as [_ J]. simpl in J.
+    destruct (ending_of c t1 EndNone); try discriminate. split; [reflexivity|].
+    destruct r as [[|[|n]]|]; try (left; exact J).
+    apply orb_true_iff in J as [J|J]; [right; auto|left; exact J].
+  Qed.
+
+  Theorem classification_without_state t1 s c r t2 :
+    t = t1 ++ TEnter s (Sup (STerminated c false r)) :: t2 ->
+    ending_of c t1 EndNone = EndNone /\
+    ((r = Some R_KILLED /\ has_ev (ev_kill c) t1 = true) \/
+     (r = Some R_CANCELLED /\ has_ev (ev_abort c) t1 = true)).
+  Proof.
+    intros E. pose proof (judged _ _ _ _ E) as J. unfold judge_sup in J.
+    apply andb_true_iff in J as [_ J]. apply andb_true_iff in J as [_ J]. simpl in J.
+    destruct (ending_of c t1 EndNone); try discriminate. split; [reflexivity|].
+    destruct r as [[|[|[|n]]]|]; try discriminate; [left|right]; auto.
+  Qed.
+
+  (* a failed or cancelled start is never reported as a termination *)
+  Theorem start_failure_no_terminal t1 s x t2 :
+    t = t1 ++ TEnter s (Sup x) :: t2 -> is_terminal x = true ->
+    ending_of (about x) t1 EndNone <> EndStartFailed.
+  Proof.
+    intros E Ht. destruct x as [c|c [|] r|c txt]; try discriminate; simpl.
+    - rewrite (proj1 (classification_with_state _ _ _ _ _ E)). discriminate.
+    - rewrite (proj1 (classification_without_state _ _ _ _ _ E)). discriminate.
+    - rewrite (classification_failed _ _ _ _ _ E). discriminate.
+  Qed.
+End Consequences.
+
+(* at most one terminal event about c, and at most one ActorStarted, is ever handled by s *)
+Lemma count_sup_app s p t1 t2 : count_sup s p (t1 ++ t2) = count_sup s p t1 + count_sup s p t2.
+Proof. unfold count_sup. rewrite filter_app, app_length. reflexivity. Qed.
+
+Lemma count_sup_single s p e :
+  count_sup s p [e] = match e with TEnter j (Sup x) => if Nat.eqb j s && p x then 1 else 0 | _ => 0 end.
+Proof.
+  unfold count_sup. destruct e as [j cb| | | | | | | | | | | |]; simpl; auto.
+  destruct cb as [| | |x|]; simpl; auto. destruct (Nat.eqb j s && p x); reflexivity.
+Qed.
+
+Lemma check_counts links t s c :
+  check_C04_go links [] t = true ->
+  count_sup s (fun y => is_terminal y && Nat.eqb (about y) c) t <= 1 /\
+  count_sup s (fun y => negb (is_terminal y) && Nat.eqb (about y) c) t <= 1.
+Proof.
+  induction t as [|e r IH] using rev_ind; [simpl; auto|].
+  rewrite check_go_app. intros H. apply andb_true_iff in H as [H1 H2]. destruct (IH H1) as [I1 I2].
+  rewrite !count_sup_app, !count_sup_single.
+  destruct e as [j cb| | | | | | | | | | | |]; try lia.
+  destruct cb as [| | |x|]; try lia.
+  destruct (Nat.eqb_spec j s) as [->|]; [|simpl; lia].
+  simpl in H2. unfold judge_sup in H2. apply andb_true_iff in H2 as [_ H2].
+  destruct (Nat.eqb_spec (about x) c) as [Ec|]; [|rewrite !andb_false_r; simpl; lia].
+  rewrite !andb_true_r. simpl andb.
+  destruct x as [c0|c0 st r0|c0 txt]; simpl in Ec, H2 |- *; subst c0.
+  - apply andb_true_iff in H2 as [_ H2]. apply Nat.eqb_eq in H2.
+    assert (count_sup s (fun y => negb (is_terminal y) && Nat.eqb (about y) c) r
+            <= count_sup s (fun y => Nat.eqb (about y) c) r).
+    { rewrite !count_sup_hl. clear. induction (hl s r) as [|y l IH]; simpl; auto.
+      destruct (Nat.eqb (about y) c); rewrite ?andb_false_r, ?andb_true_r; simpl; [|exact IH].
+      destruct (negb (is_terminal y)); simpl; lia. }
+    lia.
+  - apply andb_true_iff in H2 as [H2 _]. apply Nat.eqb_eq in H2. lia.
+  - apply andb_true_iff in H2 as [H2 _]. apply Nat.eqb_eq in H2. lia.
+Qed.
+
+Theorem terminal_at_most_once cfgs msgs ls s c :
+  count_sup s (fun y => is_terminal y && Nat.eqb (about y) c) (trace_of (run (init cfgs msgs) ls)) <= 1.
+Proof. apply (check_counts _ _ s c (C04_oracle_sound_proof cfgs msgs ls)). Qed.
+
+Theorem started_at_most_once cfgs msgs ls s c :
+  count_sup s (fun y => negb (is_terminal y) && Nat.eqb (about y) c) (trace_of (run (init cfgs msgs) ls)) <= 1.
+Proof. apply (check_counts _ _ s c (C04_oracle_sound_proof cfgs msgs ls)). Qed.
+
+(* start() returning Err: nothing is appended to anybody's supervision queue *)
+Theorem start_failed_silent w i s : supq_of (start_failed w i) s = supq_of w s.
+Proof.
+  unfold start_failed. change (supq_of (emit (cleanup w i None) (TSpawnRet i false)) s)
+    with (supq_of (cleanup w i None) s).
+  unfold cleanup. destruct (get w i) as [a|]; [|reflexivity]. destruct (negb (a_armed a)); [reflexivity|].
+  set (w4 := unlink_from_supervisor _ i).
+  assert (S : sil w w4).
+  { unfold w4. eapply sil_trans; [|apply sil_unlink]. eapply sil_trans; [|apply sil_terminate].
+    apply sil_upd; sr_tac. }
+  rewrite <- (supq_sil w w4 s S). unfold supq_of.
+  destruct (Nat.eq_dec i s) as [->|Hne].
+  - rewrite get_upd_same. destruct (get w4 s); reflexivity.
+  - rewrite get_upd_other by assumption. reflexivity.
+Qed.
+
+(* ------------------------------------------------------------------ *)
+(* containment: a step of actor k never moves another actor's program counter *)
+
+Definition pcf (k : nat) (w w' : world) : Prop :=
+  forall j, j <> k -> option_map a_pc (get w' j) = option_map a_pc (get w j).
+
+Lemma pcf_refl k w : pcf k w w.
+Proof. intros j _. reflexivity. Qed.
+Lemma pcf_trans k w1 w2 w3 : pcf k w1 w2 -> pcf k w2 w3 -> pcf k w1 w3.
+Proof. intros A B j H. rewrite (B j H). apply A. exact H. Qed.
+Lemma pcf_upd_own k w f : pcf k w (upd w k f).
+Proof. intros j H. rewrite get_upd_other by congruence. reflexivity. Qed.
+Lemma pcf_upd_pc k w i f : (forall a, a_pc (f a) = a_pc a) -> pcf k w (upd w i f).
+Proof.
+  intros Hf j _. destruct (Nat.eq_dec i j) as [->|Hne].
+  - rewrite get_upd_same. destruct (get w j); simpl; auto. now rewrite Hf.
+  - rewrite get_upd_other by assumption. reflexivity.
+Qed.
+Lemma pcf_emit k w e : pcf k w (emit w e).
+Proof. intros j _. reflexivity. Qed.
+Lemma pcf_sil k w w' : sil w w' -> pcf k w w'.
+Proof.
+  intros [_ g] j _. specialize (g j). destruct (get w j), (get w' j); try tauto. simpl.
+  now rewrite (s_pc _ _ g).
+Qed.
+
+Ltac pcf_upd := apply pcf_upd_pc; let z := fresh "z" in intros z; simpl; auto.
+
+Lemma pcf_do_kill k w i : pcf k w (do_kill w i).
+Proof. apply pcf_sil, sil_do_kill. Qed.
+Lemma pcf_do_stop k w i r : pcf k w (do_stop w i r).
+Proof.
+  unfold do_stop. destruct (get w i); [|apply pcf_refl]. destruct (_ || _); [apply pcf_refl|pcf_upd].
+Qed.
+Lemma pcf_do_send k w i m : pcf k w (do_send w i m).
+Proof.
+  unfold do_send. destruct (get w i); [|apply pcf_refl]. destruct (can_send _); [|apply pcf_emit].
+  eapply pcf_trans; [|apply pcf_emit]. pcf_upd.
+Qed.
+Lemma pcf_do_drain k w i : pcf k w (do_drain w i).
+Proof.
+  unfold do_drain. destruct (get w i); [|apply pcf_refl]. destruct (negb _); [apply pcf_refl|].
+  apply pcf_upd_pc. intros z. destruct (drain_upd_fields z) as (E & _). exact E.
+Qed.
+Lemma pcf_do_eff k w e : pcf k w (do_eff w e).
+Proof.
+  destruct e; simpl; try apply pcf_refl.
+  - unfold req_send. destruct (is_created w a); [apply pcf_do_send|apply pcf_refl].
+  - unfold req_stop. destruct (is_created w a); [|apply pcf_refl].
+    eapply pcf_trans; [apply pcf_emit|apply pcf_do_stop].
+  - unfold req_kill. destruct (is_created w a); [|apply pcf_refl].
+    eapply pcf_trans; [apply pcf_emit|apply pcf_do_kill].
+  - unfold req_drain. destruct (is_created w a); [|apply pcf_refl].
+    eapply pcf_trans; [apply pcf_emit|apply pcf_do_drain].
+Qed.
+Lemma pcf_notify k w i e : pcf k w (notify_supervisor w i e).
+Proof.
+  unfold notify_supervisor. destruct (get w i) as [a|]; [|apply pcf_refl].
+  destruct (a_sup a) as [s|]; [|apply pcf_refl]. destruct (get w s) as [b|]; [|apply pcf_refl].
+  destruct (a_ports b); [pcf_upd|apply pcf_refl].
+Qed.
+Lemma pcf_cleanup k w e : pcf k w (cleanup w k e).
+Proof.
+  unfold cleanup. destruct (get w k) as [a|]; [|apply pcf_refl]. destruct (negb _); [apply pcf_refl|].
+  eapply pcf_trans; [|apply pcf_upd_own]. eapply pcf_trans; [|apply pcf_sil, sil_unlink].
+  assert (E : pcf k w (terminate (upd w k (fun a0 => upd_status a0 5)) k)).
+  { eapply pcf_trans; [apply pcf_upd_own|apply pcf_sil, sil_terminate]. }
+  destruct e; [eapply pcf_trans; [exact E|apply pcf_notify]|exact E].
+Qed.
+Lemma pcf_finish k w e : pcf k w (finish w k e).
+Proof. unfold finish. eapply pcf_trans; [apply pcf_cleanup|apply pcf_emit]. Qed.
+Lemma pcf_start_failed k w : pcf k w (start_failed w k).
+Proof. unfold start_failed. eapply pcf_trans; [apply pcf_cleanup|apply pcf_emit]. Qed.
+Lemma pcf_killed_exit k w c : pcf k w (killed_exit w k c).
+Proof.
+  unfold killed_exit. assert (E : pcf k w (terminate w k)) by apply pcf_sil, sil_terminate.
+  destruct c as [[| | | |]|];
+    try (eapply pcf_trans; [exact E|]; auto using pcf_start_failed, pcf_finish);
+    (eapply pcf_trans; [|apply pcf_finish]; apply pcf_upd_own).
+Qed.
+Lemma pcf_try_link k w s : pcf k w (fst (try_link w k s)).
+Proof.
+  unfold try_link. destruct (get w k); [|apply pcf_refl]. destruct (get w s) as [b|]; [|apply pcf_refl].
+  destruct (_ || _); [apply pcf_refl|]. destruct (a_kids b); [|apply pcf_refl]. simpl.
+  eapply pcf_trans; [|apply pcf_upd_own]. pcf_upd.
+Qed.
+Lemma pcf_enter k w c : pcf k w (enter w k c).
+Proof.
+  unfold enter. destruct (get w k) as [a|]; [|apply pcf_refl]. destruct (script_of w a c) as [es f].
+  eapply pcf_trans; [apply pcf_emit|apply pcf_upd_own].
+Qed.
+Lemma pcf_start_cb k w c : pcf k w (start_cb w k c).
+Proof.
+  unfold start_cb. destruct (get w k) as [a|]; [|apply pcf_refl]. destruct (a_sig a).
+  - eapply pcf_trans; [|apply pcf_killed_exit]. apply pcf_upd_own.
+  - apply pcf_enter.
+Qed.
+Lemma pcf_graceful_exit k w r : pcf k w (graceful_exit w k r).
+Proof. unfold graceful_exit. eapply pcf_trans; [|apply pcf_start_cb]. apply pcf_upd_own. Qed.
+Lemma pcf_after_cb k w c f : pcf k w (after_cb w k c f).
+Proof.
+  unfold after_cb. destruct (get w k) as [a|]; [|apply pcf_refl].
+  assert (F5 : forall e, pcf k w (finish (upd w k (fun a0 => upd_status a0 5)) k e)).
+  { intros e. eapply pcf_trans; [apply pcf_upd_own|apply pcf_finish]. }
+  destruct c; destruct f; auto using pcf_start_failed, pcf_finish, pcf_upd_own.
+  - destruct (c_link (a_cfg a)) as [sp|].
+    + pose proof (pcf_try_link k w sp) as E. destruct (try_link w k sp) as [w1 ok]. simpl in E.
+      eapply pcf_trans; [exact E|]. destruct ok; [|apply pcf_start_failed].
+      eapply pcf_trans; [apply pcf_upd_own|apply pcf_emit].
+    + eapply pcf_trans; [apply pcf_upd_own|apply pcf_emit].
+  - eapply pcf_trans; [apply pcf_upd_own|apply pcf_notify].
+Qed.
+Lemma pcf_seg k w : pcf k w (fst (seg w k)).
+Proof.
+  unfold seg. destruct (get w k) as [a|]; [|apply pcf_refl].
+  destruct (a_pc a) as [| | |c rest f parked| |]; cbn [fst]; try apply pcf_refl.
+  - destruct (negb _); cbn [fst]; [apply pcf_start_failed|].
+    eapply pcf_trans; [apply pcf_upd_own|apply pcf_start_cb].
+  - apply pcf_start_cb.
+  - destruct rest as [|e r]; cbn [fst].
+    + eapply pcf_trans; [apply pcf_emit|apply pcf_after_cb].
+    + destruct e; cbn [fst];
+        try (eapply pcf_trans; [apply pcf_upd_own|apply (pcf_do_eff k _ (ESend _ _))
+                                                  || apply (pcf_do_eff k _ (EStop _ _))
+                                                  || apply (pcf_do_eff k _ (EKill _))
+                                                  || apply (pcf_do_eff k _ (EDrain _))]).
+      * destruct (is_open w g); cbn [fst].
+        -- destruct parked; [eapply pcf_trans; [apply pcf_emit|apply pcf_upd_own]|apply pcf_upd_own].
+        -- destruct parked; cbn [fst]; [apply pcf_refl|eapply pcf_trans; [apply pcf_emit|apply pcf_upd_own]].
+      * eapply pcf_trans; [apply pcf_emit|apply pcf_upd_own].
+  - destruct (a_sig a); cbn [fst].
+    + eapply pcf_trans; [apply pcf_upd_own|apply pcf_killed_exit].
+    + destruct (a_stop a); cbn [fst].
+      * eapply pcf_trans; [apply pcf_upd_own|apply pcf_graceful_exit].
+      * destruct (a_supq a); cbn [fst].
+        -- destruct (a_msgq a) as [|[m|] t]; cbn [fst]; [apply pcf_refl| |].
+           ++ eapply pcf_trans; [apply pcf_upd_own|apply pcf_start_cb].
+           ++ eapply pcf_trans; [apply pcf_upd_own|apply pcf_graceful_exit].
+        -- eapply pcf_trans; [apply pcf_upd_own|apply pcf_start_cb].
+Qed.
+Lemma pcf_segs k fuel w : pcf k w (segs fuel w k).
+Proof.
+  revert w. induction fuel as [|n IH]; intros w; cbn [segs]; [apply pcf_refl|].
+  pose proof (pcf_seg k w) as E. destruct (seg w k) as [w' go]. cbn [fst] in E.
+  destruct go; [eapply pcf_trans; [exact E|apply IH]|exact E].
+Qed.
+Lemma pcf_poll k fuel w : pcf k w (poll fuel w k).
+Proof.
+  unfold poll. assert (E : pcf k w (fst (resume w k))).
+  { unfold resume. destruct (get w k) as [a|]; [|apply pcf_refl].
+    destruct (a_pc a); cbn [fst]; try apply pcf_refl. destruct (a_sig a); cbn [fst]; [|apply pcf_refl].
+    eapply pcf_trans; [|apply pcf_killed_exit]. eapply pcf_trans; [apply pcf_upd_own|apply pcf_emit]. }
+  destruct (resume w k) as [w' go]. cbn [fst] in E.
+  destruct go; [eapply pcf_trans; [exact E|apply pcf_segs]|exact E].
+Qed.
+Lemma pcf_abort k w : pcf k w (abort w k).
+Proof.
+  unfold abort. destruct (get w k) as [a|]; [|apply pcf_refl].
+  destruct (a_pc a) as [| | |c r f [|]| |]; try apply pcf_refl;
+    (eapply pcf_trans; [|apply pcf_cleanup]); repeat (eapply pcf_trans; [|apply pcf_emit]); apply pcf_refl.
+Qed.
+
+Definition subject (l : label) : option nat :=
+  match l with LSpawn i | LAbort i | LPoll i _ => Some i | _ => None end.
+
+(* whatever actor k does or suffers in one step (callbacks, failure, panic, kill, abort,
+   exit cleanup with the kill of its subtree and the report to its supervisor), every other
+   actor stays at the same point of its own life cycle; requests (send/stop/kill/drain) and gate
+   openings move nobody's program counter at all *)
+Theorem containment w l j :
+  subject l <> Some j -> option_map a_pc (get (step w l) j) = option_map a_pc (get w j).
+Proof.
+  intros Hs. destruct l as [i|i m|i r|i|i|g|i|i fuel]; simpl in *.
+  - assert (Hj : j <> i) by congruence. destruct (get w i) as [a|]; auto.
+    destruct (a_pc a); auto. apply (pcf_upd_own i w _ j Hj).
+  - apply (pcf_do_eff (S j) w (ESend i m) j). lia.
+  - apply (pcf_do_eff (S j) w (EStop i r) j). lia.
+  - apply (pcf_do_eff (S j) w (EKill i) j). lia.
+  - apply (pcf_do_eff (S j) w (EDrain i) j). lia.
+  - reflexivity.
+  - apply (pcf_abort i w j). congruence.
+  - apply (pcf_poll i fuel w j). congruence.
+Qed.
